@@ -7,6 +7,8 @@ import random
 import tlc
 
 XYZ = '{"X", "Y", "Z"}'
+# the recursive sums (GSumUpTo over 2^n terms, nested for matrices) need a deeper Java stack than the default
+JAVA_ENV = {"JAVA_TOOL_OPTIONS": "-Xss64m"}
 
 
 # ---------------------------------------------------------------- seeded inputs
@@ -44,13 +46,14 @@ def gen_gram(rng, n, count, cols=2):
              for _ in range(2 ** n)] for _ in range(count)]
 
 
-def family_defs(seed, nmax, counts=(2, 2, 2)):
+def family_defs(seed, nmax, counts=(2, 2, 2), beyond=0):
+    """seeded generic inputs for n = 1..nmax (counts per family) and one per family for n up to nmax+beyond"""
     rng = random.Random(seed * 7919 + 4)
 
     def case(f, cnt):
         return "CASE " + " [] ".join(
-            "m = %d -> {%s}" % (n, ", ".join(tlc.tla_value(v) for v in f(rng, n, cnt)))
-            for n in range(1, nmax + 1)) + " [] OTHER -> {}"
+            "m = %d -> {%s}" % (n, ", ".join(tlc.tla_value(v) for v in f(rng, n, cnt if n <= nmax else 1)))
+            for n in range(1, nmax + beyond + 1)) + " [] OTHER -> {}"
 
     return {"GenPsi(m)": case(gen_psi, counts[0]), "GenRho(m)": case(gen_rho, counts[1]),
             "GenGram(m)": case(gen_gram, counts[2])}
